@@ -8,6 +8,7 @@ import (
 	"time"
 
 	"verif/harness/internal/cancel"
+	"verif/harness/internal/contexts"
 	"verif/harness/internal/core"
 	"verif/harness/internal/graph"
 	"verif/harness/internal/layers"
@@ -26,6 +27,7 @@ var engines = map[string]engine{
 	"C08": layers.CheckC08, "C09": layers.CheckC09, "C10": layers.CheckC10,
 	"C11": outputs.Check,
 	"C12": cancel.Check,
+	"C14": contexts.Check,
 	"C13": timed.Check,
 }
 
